@@ -417,6 +417,7 @@ inductive Op where
   | srange (d i j : Nat) (w : String)         -- v[d][i..j] = "w"        (unlink_string_svalue + copy_lvalue_range)
   | clones (n : Nat) | unclone (n : Nat)   -- n further clones of /c06/uobj (only their program reference is modelled)
   | unload (w : Nat)                        -- destruct + clean up the blueprint object of /c06/uobj (0) or /c06/base (1)
+  | reclaimu                                -- reclaim_objects() in unit mode: the variables of every object are walked (check_svalue)
   | reclaim                                 -- reclaim_objects(): references to destructed objects found in object variables are released
   | newobjr (o L : Nat)                     -- clone of /c06/rc<L>: inherits ra<L> (layNa L variables) and rb<L> (layNb L variables)
   | replace (o w : Nat)                     -- replace_program() by the first (w = 0) / second (w = 1) inherited program + replace_programs()
@@ -615,6 +616,73 @@ def anonCount (s : St) : Nat := (anonSlots s).length
 /-- blueprint objects of /c06/uobj and /c06/base that have been unloaded: object structures that existed at the
     baseline and are gone (the blueprints are roots of the model, not object cells) -/
 def unloadedCount (s : St) : Nat := (if isNumRoot s rProg then 1 else 0) + (if isNumRoot s rBase then 1 else 0)
+
+/-! ### reclaim_objects() (lib/efuns/reclaim_object.c)
+
+check_svalue walks the variables of every object of the object list: a destructed object is released and zeroed, arrays
+and classes are walked element by element, a function pointer through its bound arguments, a mapping node whose key is
+a destructed object is deleted (key and value released, the value is not walked), otherwise key and value are walked.
+The recursion counter `nested` is global: `nested++; if (nested > MAX_RECURSION) return;` returns WITHOUT the
+decrement (mirrored).  The result is a list of locations to zero and of mapping nodes to delete. -/
+
+def maxRecursion : Nat := 25
+
+structure RAcc where
+  nested : Nat := 0
+  zeros : List Loc := []
+  dels : List (Nat × Nat) := []
+
+def reclaimGo : Nat → St → Loc → RAcc → RAcc
+  | 0, _, _, a => a
+  | f + 1, s, loc, a =>
+    let a := { a with nested := a.nested + 1 }
+    if a.nested > maxRecursion then a
+    else
+      let a' : RAcc := match readLoc s loc with
+        | .ok (.ptr c) =>
+          match s.heap[c]? with
+          | some cell =>
+            if !cell.live then a
+            else match cell.kind with
+              | .obj => if cell.destructed then { a with zeros := loc :: a.zeros } else a
+              | .arr => (List.range cell.items.length).foldl (fun a i => reclaimGo f s (.item c i) a) a
+              | .cls => (List.range cell.items.length).foldl (fun a i => reclaimGo f s (.item c i) a) a
+              | .fn => (match (cell.items[0]? : Option Val) with
+                | some (Val.ptr _) => reclaimGo f s (.item c 0) a
+                | _ => a)
+              | .map => (List.range (cell.items.length / 2)).foldl (fun a j =>
+                  let keyObj : Option Bool := match (cell.items[2 * j]? : Option Val) with
+                    | some (Val.ptr k) => (match s.heap[k]? with
+                      | some kc => if kc.kind == .obj then some kc.destructed else none
+                      | none => none)
+                    | _ => none
+                  match keyObj with
+                  | some true => { a with dels := (c, j) :: a.dels }
+                  | some false => reclaimGo f s (.item c (2 * j + 1)) a
+                  | none => reclaimGo f s (.item c (2 * j + 1)) (reclaimGo f s (.item c (2 * j)) a)) a
+              | _ => a
+          | none => a
+        | _ => a
+      { a' with nested := a'.nested - 1 }
+
+def insDel (x : Nat × Nat) : List (Nat × Nat) → List (Nat × Nat)
+  | [] => [x]
+  | y :: ys =>
+    if x == y then y :: ys
+    else if y.1 < x.1 || (y.1 == x.1 && y.2 < x.2) then x :: y :: ys else y :: insDel x ys
+
+/-- objects of the object list, newest first, with the number of their variables -/
+def listedObjects (s : St) : List (Nat × Nat) :=
+  ((List.range s.heap.length).filterMap (fun c => match s.heap[c]? with
+    | some cell => if cell.live && cell.kind == .obj && !cell.destructed then some (c, min nVars (objVars s cell)) else none
+    | none => none)).reverse
+
+def reclaimProg (s : St) : List Mi :=
+  let a := (listedObjects s).foldl (fun a (c, n) =>
+    (List.range n).foldl (fun a i => reclaimGo (s.size + s.heap.length + 2) s (.item c i) a) a) ({} : RAcc)
+  let dels := a.dels.foldl (fun acc x => insDel x acc) []
+  a.zeros.reverse.flatMap (fun l => [Mi.take l, Mi.free]) ++
+    dels.flatMap (fun (c, j) => [Mi.take (.item c (2 * j)), .free, .take (.item c (2 * j + 1)), .free, .shrink c j])
 
 /-- translate an operation into its micro program in the current state; `none` = not applicable (skip) -/
 def compile (s : St) (op : Op) : Option (List Mi) :=
@@ -903,6 +971,7 @@ def compile (s : St) (op : Op) : Option (List Mi) :=
     let sl := anonSlots s
     if sl.length < n || !s.dlist.isEmpty then none
     else some ((sl.take n).flatMap (fun (p, i) => [Mi.take (.item p i), Mi.free]))
+  | .reclaimu => some (reclaimProg s)
   | .reclaim =>
     -- lpc mode: the only references to destructed objects reachable from object variables are the handles (variable
     -- `obs` of the interpreter object) and a structure the operation builds around them (array, mapping key / value,
